@@ -39,7 +39,9 @@ THEOREMS = [
     "C07_user_exception_bubbles", "C07_user_exception_bubbles_list", "C07_user_exception_bubbles_request",
     "C07_exec_directive_sound", "C07_validated_directive_args_sound",
     "C07_single_value_wraps_every_level", "C07_single_literal_wraps_every_level", "C07_list_corners",
-    "C07_checkers_sound",
+    "C07_checkers_sound", "C07_agree_checkers_sound", "C07_validated_request_sound_checked",
+    "C07_wrong_accepted_only_if_lenient", "C07_wrong_full_iff", "C07_foreign_accepted_iff",
+    "C07_request_routes_agree",
     "C07_example",
 ]
 AXIOMS_OK = []
@@ -74,7 +76,26 @@ RULE = ("(type, value) pairs: every wrapper shape to depth 3 over the 5 specifie
         "(schema, type or argument definitions, value / request text, variables)")
 
 _SCHEMAS = {}      # coq name -> term
+_VSCHEMAS = {}     # coq name -> term of the validation model's schema type
 _BUILT = {}
+
+
+def _header():
+    h = "From Coq Require Import ZArith.\nLocal Open Scope N_scope.\n" + "".join(
+        "Definition %s : schema :=\n %s.\n" % (n, t) for n, t in sorted(_SCHEMAS.items()))
+    if _VSCHEMAS:
+        h += "Module VSch.\nImport PyGql.Valid.ValidSchema.\n" + "".join(
+            "Definition %s : schema :=\n %s.\n" % (n, t) for n, t in sorted(_VSCHEMAS.items())) + "End VSch.\n"
+    return h
+
+
+def _vschema_ref(term):
+    global EXTRA_HEADER
+    name = "vs_%d" % (abs(hash(term)) % (10 ** 12))
+    if name not in _VSCHEMAS:
+        _VSCHEMAS[name] = term
+        EXTRA_HEADER = _header()
+    return "VSch." + name
 
 
 def _schema_ref(sd):
@@ -83,8 +104,7 @@ def _schema_ref(sd):
     name = "sch_%d" % (abs(hash(key)) % (10 ** 12))
     if name not in _SCHEMAS:
         _SCHEMAS[name] = G.cschema(sd)
-        EXTRA_HEADER = "From Coq Require Import ZArith.\nLocal Open Scope N_scope.\n" + "".join(
-            "Definition %s : schema :=\n %s.\n" % (n, t) for n, t in sorted(_SCHEMAS.items()))
+        EXTRA_HEADER = _header()
     return name
 
 
@@ -243,6 +263,15 @@ def corpus():
     # open findings pinned by the test-suite
     val(G.N("Int"), "12", "numeric-string-for-number")
     val(G.N("Float"), "1.5", "numeric-string-for-number")
+    # ... with everything python's int() / float() take: blanks, +, underscores
+    for v in ("1_0", " 12 ", "+5", "\t7\n", "1e3", "-1_000"):
+        val(G.N("Int"), v, "numeric-string-for-number")
+    for v in ("1_0.5", " 1.5 ", "+2.5e1", "1_0"):
+        val(G.N("Float"), v, "numeric-string-for-number")
+    for v in ("1__0", "_1", "1_", " ", "1 0", "1_0.5"):
+        val(G.N("Int"), v, "wrong-kind")
+    for v in ("1__0", "_1.5", "1_", " "):
+        val(G.N("Float"), v, "wrong-kind")
     val(G.N("String"), 3, "number-for-string")
     return out
 
@@ -748,6 +777,14 @@ def generate(rng, tier):
                           "args": [{"name": "x", "py": "x_py", "type": G.N(n), "default": None}],
                           "query": "query Q($v: %s) { f(x: $v) }" % n, "raw": {"v": j}, "label": "edge-number"})
     cases.extend(_derived_cases(rng, quick))
+    # the two serialisations of the real schema behind some of the requests
+    seen = {}
+    for c in cases:
+        if c["kind"] == "exec" and "derive" not in c and c["args"]:
+            key = json.dumps(c["schema"], sort_keys=True)
+            if seen.get(key, 0) < (3 if quick else 4):
+                seen[key] = seen.get(key, 0) + 1
+                cases.append({"kind": "agree", "schema": c["schema"], "args": c["args"], "label": "schema-agree"})
     return cases
 
 
@@ -972,6 +1009,10 @@ def run_impl(case):
     sd = case["schema"]
     if "derive" in case:
         return _run_derived(case)
+    if k == "agree":
+        from .. import ser_valid
+        b = _built(sd, case["args"])
+        return {"vschema": ser_valid.cschema(b.schema)}
     if k == "val":
         b = _built(sd)
         return {"r": _call(lambda: coerce_value(case["json"], b.ty(case["type"])))}
@@ -1077,6 +1118,9 @@ def _dir_term(case, obs):
 
 
 def to_coq(case, obs):
+    if case["kind"] == "agree":
+        return "(CaseAgree %s %s %s)" % (_schema_ref(case["schema"]), ser.clist(case["args"], G.cfield),
+                                         _vschema_ref(obs["vschema"]))
     if case["kind"] == "dir":
         return _dir_term(case, obs)
     if case["kind"] == "abs":
@@ -1100,6 +1144,8 @@ _KF = {"numeric-string-for-number", "number-for-string"}
 
 
 def nontrivial(case, obs):
+    if case["kind"] == "agree":
+        return True
     if case["kind"] == "dir":
         return bool(case["dirs"])
     if case["kind"] == "abs":
@@ -1123,6 +1169,8 @@ def classify(case, obs):
         return "variable-route:" + lab, None
     if case["kind"] == "lit":
         return "literal-route:" + lab, None
+    if case["kind"] == "agree":
+        return "two-schema-serialisations-agree", None
     if case["kind"] == "abs":
         return "resolver-kwargs-per-concrete-type:" + lab, None
     if case["kind"] == "dir":
@@ -1212,6 +1260,8 @@ def _has_unlucky(case):
 
 def direct_checks(case, obs):
     out = []
+    if case["kind"] == "agree":
+        return out
     if case["kind"] == "dir":
         return _dir_checks(case, obs)
     if case["kind"] == "abs":
@@ -1289,6 +1339,8 @@ def extra_evidence(cases, obss):
         kinds[c["kind"]] = kinds.get(c["kind"], 0) + 1
         lab = c.get("label", "?").split("+")[0]
         labels[lab] = labels.get(lab, 0) + 1
+        if c["kind"] == "agree":
+            continue
         r = o.get("r") or o.get("exec")
         if c["kind"] == "abs":
             r = {"ok": 1} if "items" in r else r
